@@ -172,8 +172,27 @@ def o_handler(rec: Recorder, case, soft=False):
                 rec.fail(f"C07/parsehash-incomplete/{name}", f"{name}.parsehash() does not report all the settings the hash was made with (missing {missing}): the hasher cannot be rebuilt from it",
                          "handler_roundtrip", case, repr(rebuilt), hs, soft=soft)
                 return
+            # sanitize=<callable>: the caller's masking function is applied to the secret-bearing fields (salt, checksum), nothing else changes
+            mark = lambda value: ("masked-by-caller", repr(value))  # noqa: E731
+            st3, masked = call(h.parsehash, hs, sanitize=mark)
+            if st3 == "err":
+                raise masked
+            for key, val in ph.items():
+                want = mark(val) if key in getattr(h, "_unsafe_settings", ("salt", "checksum")) else val
+                if masked.get(key) != want:
+                    rec.fail(f"C07/parsehash-sanitize/{name}", f"{name}.parsehash(hash, sanitize=<callable>) does not apply the caller's function to {key}", "handler_roundtrip", case, repr(masked.get(key)), repr(want), soft=soft)
+                    return
         elif st == "err":
             raise ph
+        if name == "scram":
+            # the digest list of a stored hash, in the naming scheme the caller asks for
+            want_iana = sorted(obj.algs)
+            hashlib_names = {"sha-1": "sha1", "sha-256": "sha256", "sha-512": "sha512", "sha-224": "sha224", "sha-384": "sha384", "md5": "md5"}
+            got = (h.extract_digest_algs(hs), h.extract_digest_algs(hs, format="iana"), h.extract_digest_algs(hs, format="hashlib"))
+            want = (want_iana, want_iana, [hashlib_names.get(a, a) for a in want_iana])
+            if tuple(sorted(g) for g in got) != tuple(sorted(w) for w in want):
+                rec.fail("C07/scram-extract-algs", "scram.extract_digest_algs() does not report the stored digest list in the requested naming scheme", "handler_roundtrip", case, got, want, soft=soft)
+                return
     # variants
     if has_fs and not f.disabled and not f.plaintext:
         for label, v, documented in variants(name, hs, settings):
@@ -434,9 +453,14 @@ def t_small_fields(rec, seed, tier):
             n += 1
     # libpass PHC field codec: every length 0..40 (all padding residues), ASCII and multi-byte text
     for ln in range(0, 41):
-        for alpha in ("a", "xyz-_/+", "é€"):
+        for alpha in ("a", "xyz-_/+", "é€", "?>~", "~~?"):
             o_phc_b64(rec, {"text": (alpha * 41)[:ln]}, soft=True)
             n += 1
+    import itertools
+
+    for combo in itertools.product("a?>~z\xff", repeat=3):  # every 3-character group over symbols that reach the last two code points of the alphabet
+        o_phc_b64(rec, {"text": "".join(combo)}, soft=True)
+        n += 1
     # django_des_crypt in the Django 1.4+ rendering (empty salt field): renders 13 characters after 'crypt$$' and parses back to the same settings
     from passlib.hash import django_des_crypt
 
